@@ -1,11 +1,11 @@
 CONSTANTS
   Areas <- OnlyV4
   Wide4 <- MCEmpty
-  Sweep4 <- MCEmpty
-  Base4 <- MCBase4
-  Net4 <- MCBase4
-  Flip4 <- MCFlip4T
-  Cidr4B <- MCBase4
+  Sweep4 <- MCSweep4T
+  Base4 <- MCEmpty
+  Net4 <- MCEmpty
+  Flip4 <- MCEmpty
+  Cidr4B <- MCEmpty
   Sweep6 <- MCEmpty
   Base6 <- MCEmpty
   Net6 <- MCEmpty
